@@ -172,6 +172,7 @@ fn nontrivial(prop: &str, out: &RunOutput) -> bool {
         "C08" => ok("join_group") >= 2 && out.stats.probes.get("group_assignment_checked").copied().unwrap_or(0) >= 2,
         "C09" => out.stats.probes.get("ungranted_request_refused").copied().unwrap_or(0) + out.stats.probes.get("granted_request_served").copied().unwrap_or(0) >= 3,
         "C10" => ok("login") + ok("login_pat") >= 1 && out.stats.probes.get("invalid_login_refused").copied().unwrap_or(0) + out.stats.probes.get("invalid_token_refused").copied().unwrap_or(0) >= 1,
+        "C13" => n("garbage") >= 1 && (ok("create_topic") + ok("create_stream") + ok("send") + ok("create_user")) >= 4,
         "C14" => ok("send") >= 2 && n("job_maintain") >= 1 && n("jump") >= 1,
         "C15" => ok("send") >= 2 && n("send") >= 4,
         "C17" => ok("send") >= 4,
